@@ -470,3 +470,39 @@ def rule_domain_presence(db: ProgramDB) -> List[Instance]:
                         f"an empty collection or a falsy single object given as the domain counts as 'no domain', and the variable "
                         f"ranges over every instance ever constructed instead", line=getattr(uses[0], "lineno", f.lineno) if uses else f.lineno))
     return out
+
+
+# ---------------------------------------------------------------------------------- PRED-ARGS
+def rule_predicate_args(db: ProgramDB) -> List[Instance]:
+    """Inside a block a @predicate call is recorded as keyword arguments: the positional arguments are zipped with parameter
+    names.  They are bound by position, so the names are those of ALL positional parameters in order - a list filtered by
+    'has no default' shifts or drops every argument given positionally for a parameter that has one."""
+    out = []
+    pred = db.fn("predicate:predicate")
+    wrap = pred.nested.get("wrapper")
+    if wrap is None:
+        raise AnalysisError("predicate.predicate no longer defines wrapper")
+    zips = [c for c in own_calls(wrap) if dotted(c.func) == "zip" and len(c.args) == 2]
+    if not zips:
+        raise AnalysisError("predicate.wrapper: positional arguments are not zipped with parameter names")
+    defs = local_defs(wrap)
+    for z in zips:
+        names = z.args[0]
+        if isinstance(names, ast.Name):
+            ds = [d for d in defs.get(names.id, []) if isinstance(d, ast.AST)]
+            names = ds[0] if ds else names
+        bad = None
+        src_ok = "signature" in unparse(names) or "parameters" in unparse(names) or "co_varnames" in unparse(names)
+        if isinstance(names, (ast.ListComp, ast.GeneratorExp)):
+            for g in names.generators:
+                for t in g.ifs:
+                    if any(isinstance(x, ast.Attribute) and x.attr == "default" for x in ast.walk(t)) or "empty" in unparse(t):
+                        bad = t
+        ok = src_ok and bad is None
+        out.append(inst("PRED-ARGS", HOLDS if ok else VIOLATION, wrap, "predicate.wrapper[positional arguments bound by position]",
+                        "positional arguments are zipped with the names of all positional parameters, in order" if ok else
+                        (f"the names positional arguments are zipped with are filtered by `{unparse(bad)}`: an argument given "
+                         f"positionally for a parameter that has a default (older_than(p, 3) for def older_than(p, limit=0)) is dropped, "
+                         f"and the predicate runs with the default" if bad is not None else
+                         "the names positional arguments are zipped with do not come from the function's signature"), line=z.lineno))
+    return out
